@@ -116,6 +116,14 @@ def parse_dump(d):
 
 
 def run_binary(cmds, timeout=60):
-    rc, out, err = vlib.run_opensmt(sg.render(cmds, echo=True), timeout=timeout)
+    import time
+    for attempt in range(30):
+        try:
+            rc, out, err = vlib.run_opensmt(sg.render(cmds, echo=True), timeout=timeout)
+            break
+        except OSError:          # the shared binary is being relinked by a concurrent incremental build
+            if attempt == 29:
+                raise
+            time.sleep(2)
     segs, tail = sg.split_echo(out, len(cmds))
     return rc, segs, tail, err
